@@ -279,3 +279,96 @@ Proof.
   split; [auto|].
   apply (copy_set_spec st j0 false (zip_rows rs) W L0).
 Qed.
+
+(* ---------------------------------------------------------------- new objects that are linked to nothing *)
+Lemma fresh_unlinked st st' : wf st ->
+  length (heap st) <= sbuf (getseq st' (length (seqs st))) ->
+  (forall y, y < length (seqs st) -> getseq st' y = getseq st y) ->
+  forall y q q', y < length (seqs st) -> R st' (length (seqs st)) q y q' = false.
+Proof.
+  intros W Hf Hg y q q' Hy. unfold R, is_cell. rewrite (Hg y Hy).
+  destruct (Nat.eqb_spec (sbuf (getseq st' (length (seqs st)))) (sbuf (getseq st y))) as [E|]; auto.
+  destruct (wf_seq _ W y Hy) as (S1 & _). lia.
+Qed.
+
+Lemma copy_set_fresh st i (dt : bool) r : i < length (seqs st) ->
+  let st1 := do_copy st i in
+  let k := length (seqs st) in
+  let b := getbuf (heap st1) (sbuf (getseq st1 k)) in
+  let st2 := if dt then new_buf_for st1 k b else st1 in
+  let st3 := set_buf st2 (sbuf (getseq st2 k)) (mkBuf (cap b) r) in
+  length (heap st) <= sbuf (getseq st3 k).
+Proof.
+  intros Hi. cbv zeta.
+  set (st1 := do_copy st i). set (k := length (seqs st)).
+  assert (L1 : length (seqs st1) = S k) by (unfold st1, do_copy; simpl; rewrite app_length; simpl; lia).
+  assert (G1 : sbuf (getseq st1 k) = length (heap st)) by (unfold getseq, st1, do_copy, k; cbn [seqs]; rewrite nth_app_new; reflexivity).
+  assert (H1 : length (heap st1) = S (length (heap st))) by (unfold st1, do_copy; cbn [heap]; rewrite app_length; simpl; lia).
+  set (b := getbuf (heap st1) (sbuf (getseq st1 k))).
+  destruct dt.
+  - change (getseq (set_buf (new_buf_for st1 k b) (sbuf (getseq (new_buf_for st1 k b) k)) (mkBuf (cap b) r)) k)
+      with (getseq (new_buf_for st1 k b) k).
+    rewrite getseq_new_buf_for, Nat.eqb_refl by lia. cbn [sbuf]. lia.
+  - change (getseq (set_buf st1 (sbuf (getseq st1 k)) (mkBuf (cap b) r)) k) with (getseq st1 k). lia.
+Qed.
+
+(* out-of-place operators (scalar or sequence operand), concatenate(axis=1), the constructor: the new
+   object is linked to no existing object *)
+Theorem fresh_links st o : reachable st ->
+  match o with
+  | OOp _ _ false _ | OOpSeq _ _ _ false _ | OConcat1 _ | ONew _ _ _ _ => True
+  | _ => False
+  end ->
+  snd (step st o) = ROk ->
+  forall y q q', y < length (seqs st) -> R (fst (step st o)) (length (seqs st)) q y q' = false.
+Proof.
+  intros Rch Ho Hr. pose proof (reachable_wf st Rch) as W.
+  destruct o; try tauto.
+  - (* constructor *)
+    apply (fresh_unlinked st _ W).
+    + cbn [step fst].
+      set (st1 := mkSt (heap st ++ [empty_buf]) (seqs st ++ [mkSeq (length (heap st)) [] [] false bytes None true])).
+      assert (W1 : wf st1) by (apply wf_add_fresh; simpl; auto; lia).
+      assert (H1 : length (seqs st) < length (seqs st1)) by (unfold st1; simpl; rewrite app_length; simpl; lia).
+      assert (G1 : sbuf (getseq st1 (length (seqs st))) = length (heap st)) by (unfold getseq, st1; simpl; rewrite nth_app_new; reflexivity).
+      assert (HH : length (heap st1) = S (length (heap st))) by (unfold st1; simpl; rewrite app_length; simpl; lia).
+      destruct (extend_spec st1 (length (seqs st)) bpr pre els false W1 H1) as (_ & FR & _).
+      destruct (FR 0 ltac:(intros; lia)) as (_ & _ & _ & [C4|C4] & _); [rewrite C4, G1; lia|lia].
+    + intros y Hy. apply (new_keeps st bytes bpr pre els Rch y Hy).
+  - (* out-of-place operator, scalar operand *)
+    destruct inplace; [tauto|].
+    assert (X : is_live st i = true /\ offs (getseq st i) <> []).
+    { unfold step in Hr. destruct (is_live st i); [|discriminate]. split; auto.
+      destruct (offs (getseq st i)); [discriminate|discriminate]. }
+    destruct X as (L & NE). pose proof (is_live_lt _ _ L) as Hi.
+    apply (fresh_unlinked st _ W).
+    + unfold step. rewrite L. destruct (offs (getseq st i)) as [|o0 os0] eqn:EO; [congruence|]. cbn [fst].
+      apply (copy_set_fresh st i dtchg _ Hi).
+    + intros y Hy. apply (op_copy_spec st i f dtchg Rch L NE). exact Hy.
+  - (* out-of-place operator, sequence operand *)
+    destruct inplace; [tauto|].
+    apply (fresh_unlinked st _ W).
+    + unfold step in *. destruct (is_live st i && is_live st j) eqn:L; [|discriminate].
+      apply andb_prop in L. destruct L as (L & _). apply is_live_lt in L.
+      destruct (negb _); [discriminate|]. destruct (negb _); [discriminate|].
+      destruct (offs (getseq st i)); [discriminate|].
+      destruct (op_seq_rows _ _ _); [|discriminate]. cbn [fst]. apply (copy_set_fresh st i dtchg _ L).
+    + intros y Hy. unfold step in *. destruct (is_live st i && is_live st j) eqn:L; [|discriminate].
+      apply andb_prop in L. destruct L as (L & Lj).
+      destruct (negb _); [discriminate|]. destruct (negb _); [discriminate|].
+      destruct (offs (getseq st i)); [discriminate|].
+      destruct (op_seq_rows _ _ _); [|discriminate]. cbn [fst].
+      apply (copy_set_spec st i dtchg _ W (is_live_lt _ _ L)); auto.
+  - (* concatenate(axis=1) *)
+    apply (fresh_unlinked st _ W).
+    + unfold step in *. destruct js as [|j0 js]; [discriminate|].
+      destruct (forallb (is_live st) (j0 :: js)) eqn:L; [|discriminate].
+      simpl in L. apply andb_prop in L. destruct L as (L & _). apply is_live_lt in L.
+      destruct (_ =? 0); [discriminate|]. destruct (forallb _ _); [|discriminate]. cbn [fst].
+      apply (copy_set_fresh st j0 false _ L).
+    + intros y Hy. unfold step in *. destruct js as [|j0 js]; [discriminate|].
+      destruct (forallb (is_live st) (j0 :: js)) eqn:L; [|discriminate].
+      simpl in L. apply andb_prop in L. destruct L as (L & _). apply is_live_lt in L.
+      destruct (_ =? 0); [discriminate|]. destruct (forallb _ _); [|discriminate]. cbn [fst].
+      apply (copy_set_spec st j0 false _ W L); auto.
+Qed.
